@@ -460,8 +460,11 @@ func buildLiveEntries() ([]*entry, error) {
 	// ---- ChangePasswd: the reply of the kpasswd server
 	chgAS := l.asRep(18, l.nChg, chg, l.chgSess, nil, nil)
 	generic := kmsg.KRBError{STime: w.now, Code: 6, Realm: realm, SName: tgsName}.DER()
-	kpwItems := binItems("success", l.kpwOK(nil), "softerror", l.kpwOK(l.kpwPriv([]byte{0, 4, 'n', 'o'})), "userdata-empty", l.kpwOK(l.kpwPriv([]byte{})), "userdata-1", l.kpwOK(l.kpwPriv([]byte{0})),
+	kpwItems := binItems("success", l.kpwOK(nil), "userdata-empty", l.kpwOK(l.kpwPriv([]byte{})), "userdata-1", l.kpwOK(l.kpwPriv([]byte{0})),
 		"krb-error", kpwReply(nil, w.krbError(60, []byte{0, 3, 'x'})), "krb-error-no-edata", kpwReply(nil, generic), "short", []byte{0, 6, 0, 1})
+	for i := range kpwItems[1:] {
+		kpwItems[i+1].kind = hostile.DER // structured seeds: the cheaper classes suffice (the first item gets the binary classes)
+	}
 	es = append(es, &entry{name: "client.Client.ChangePasswd(kpasswd reply)", live: true, items: kpwItems, min: 5000,
 		slots: []slot{{name: "enckrbprivpart", plain: l.kpwPriv([]byte{0, 0, 'o', 'k'}), kind: hostile.DER, seal: func(m []byte) []byte { return l.kpwOK(m) }}},
 		call: func(in []byte) result {
